@@ -700,7 +700,13 @@ impl<D: Data<Elem = A>, A: Float + LinalgScalar + DivAssign + Sum> AffFuncBase<P
         let mut raw_dist = self.distance_raw(point);
         for (row, mut dist) in zip(self.mat.outer_iter(), raw_dist.outer_iter_mut()) {
             let norm: A = row.iter().map(|&x| x.powi(2)).sum::<A>().sqrt();
-            dist.map_inplace(|x| *x /= norm);
+            dist.map_inplace(|x| {
+                *x = if norm.is_zero() && x.is_zero() {
+                    A::infinity()
+                } else {
+                    *x / norm
+                }
+            });
         }
         raw_dist
     }
